@@ -97,6 +97,11 @@ def gen_name(rnd, used, style, maxlen=24):
             nm = b"".join(rnd.choice(alpha) for _ in range(k))[:maxlen]
             if style != "odd":
                 nm += b"%d" % rnd.randint(0, 999)
+            if used and rnd.random() < 0.2:
+                # a sibling that is a proper prefix / extension of an existing name (lib, lib64, lib6): name lookups
+                # must compare whole names
+                sib = rnd.choice(sorted(used))
+                nm = sib[:rnd.randint(1, len(sib) - 1)] if (len(sib) > 1 and rnd.random() < 0.5) else sib + rnd.choice([b"64", b"-", b"0", b"a", b".d"])
         if nm in (b".", b"..", b"") or b"/" in nm or b"\n" in nm or b"\0" in nm:
             continue
         if nm in used:
@@ -317,6 +322,10 @@ def write_packfile(nodes, packdir, pf_path, explicit_root, implicit_p, rnd):
             lines.append(b"pipe %s 0%o %d %d" % (quote(p), n.perm, n.uid, n.gid))
         elif n.kind == "sock":
             lines.append(b"sock %s 0%o %d %d" % (quote(p), n.perm, n.uid, n.gid))
+    if rnd.random() < 0.5:
+        # the order of the lines is free: a directory named by a later line was created implicitly first and takes
+        # its attributes from its own line; hard link targets are resolved at the end
+        rnd.shuffle(lines)
     with open(pf_path, "wb") as f:
         f.write(b"# generated\n" + b"\n".join(lines) + b"\n")
 
